@@ -53,6 +53,18 @@ func (r *recSigner) Sign(data []byte) ([]byte, error) {
 	return r.Signer.Sign(data)
 }
 
+// noAlgSigner: a signer whose Key() names no algorithm (only the kid) — what an application's own key.Signer (an HSM
+// handle, a remote signer) may report; the library then has nothing to put into the signature's protected bucket
+type noAlgSigner struct{ key.Signer }
+
+func (n *noAlgSigner) Key() key.Key {
+	out := key.Key{}
+	if kid := n.Signer.Key().Kid(); len(kid) > 0 {
+		out[iana.KeyParameterKid] = []byte(kid)
+	}
+	return out
+}
+
 type recVerifier struct {
 	key.Verifier
 	log *[][]byte
@@ -142,6 +154,12 @@ func hdrDump(h cose.Headers) string {
 // deterministic recipients for Mac / Encrypt messages: spec "r<n>" or "r<n>s" (first one has a nested recipient)
 func mkRecipients(spec string) []*cose.Recipient {
 	n := int(spec[1] - '0')
+	// "r2k:<hex>": the last recipient is addressed by the kid <hex> (the content key's own kid, say)
+	var lastKid []byte
+	if j := strings.Index(spec, "k:"); j >= 0 {
+		lastKid = unhx(spec[j+2:])
+		spec = spec[:j]
+	}
 	var out []*cose.Recipient
 	for i := 0; i < n; i++ {
 		rc := &cose.Recipient{
@@ -152,6 +170,9 @@ func mkRecipients(spec string) []*cose.Recipient {
 		if i == 1 {
 			rc.Protected = cose.Headers{}
 			rc.Ciphertext = []byte{1, 2, 3}
+		}
+		if i == n-1 && lastKid != nil {
+			rc.Unprotected = cose.Headers{iana.HeaderParameterKid: append([]byte{}, lastKid...)}
 		}
 		if strings.HasSuffix(spec, "n") { // unprotected buckets left nil (the encoder must still write an empty map)
 			rc.Unprotected = nil
@@ -329,6 +350,11 @@ func produceT[T any](c payloadCodec[T], a *msgArgs) string {
 			recs = append(recs, r)
 			ss = append(ss, r)
 			a.isRandom = a.isRandom || isEcdsaKey(k)
+		}
+		if a.recips == "noalg" {
+			for i := range ss {
+				ss[i] = &noAlgSigner{Signer: ss[i]}
+			}
 		}
 		m := &cose.SignMessage[T]{Protected: prot, Unprotected: unprot, Payload: payload}
 		if a.warm {
